@@ -2005,10 +2005,10 @@ def irdl_op_arg_definition(
 ) -> None:
     defs = get_construct_defs(op_def, construct)
 
-    if any(
+    num_variadics = sum(isinstance(d, VariadicDef) for _, d in defs)
+    if num_variadics and any(
         isinstance(o, get_same_variadic_size_option(construct)) for o in op_def.options
     ):
-        num_variadics = sum(isinstance(d, VariadicDef) for _, d in defs)
         variadics_encountered = 0
         num_defs = len(defs)
 
